@@ -186,3 +186,79 @@ def has_allof_cycle(names, edges):
         seen[v] = 2
         return False
     return any(dfs(n) for n in names)
+
+
+# ---- C07: several operations per response shape; discriminator mappings in both spellings -----
+INLINE_STYLES = ["none", "enum", "obj", "both"]
+
+
+def shape_schema(name, style):
+    """a response body schema; `style` says which INLINE member types (emitted right after the operations'
+    own types) it carries"""
+    s = {"type": "object", "required": ["id"], "properties": {"id": {"type": "string"}}}
+    if style in ("enum", "both"):
+        s["properties"]["kind"] = {"type": "string", "enum": ["plain", "fancy", name.lower()]}
+    if style in ("obj", "both"):
+        s["properties"]["origin"] = {"type": "object", "properties": {"country": {"type": "string"}, fld(name) + "_city": {"type": "string"}}}
+    return s
+
+
+def groups_spec(d):
+    """d["gops"]: [[operationId, shape], ...] in PATH order; shape = a schema name (200 + JSON body of that
+    schema), "arr:<name>" (array of it), "+404:<name>" (200 of it plus an empty 404) or None (204, no body).
+    Operations with equal shapes have equal response signatures.  d["inl"]: {schema name: inline style}.
+    d["qenum"]: ids of operations with a query parameter whose schema is an inline enum."""
+    schemas, paths = {}, {}
+    for n, style in (d.get("inl") or {}).items():
+        schemas[n] = shape_schema(n, style)
+    for i, (oid, shape) in enumerate(d["gops"]):
+        op = {"operationId": oid, "responses": {}}
+        if shape is None:
+            op["responses"]["204"] = {"description": "done"}
+        else:
+            extra404 = shape.startswith("+404:")
+            body = shape.split(":", 1)[1] if ":" in shape else shape
+            schemas.setdefault(body, shape_schema(body, "none"))
+            sch = {"$ref": REF + body}
+            if shape.startswith("arr:"):
+                sch = {"type": "array", "items": sch}
+            op["responses"]["200"] = {"description": "ok", "content": {"application/json": {"schema": sch}}}
+            if extra404:
+                op["responses"]["404"] = {"description": "missing"}
+        if oid in (d.get("qenum") or []):
+            op["parameters"] = [{"name": "sort", "in": "query", "schema": {"type": "string", "enum": ["asc", "desc"]}}]
+        paths["/p%d/%s" % (i, fld(oid))] = {"get": op}
+    return {"openapi": "3.1.0", "info": {"title": "g", "version": "1"}, "paths": paths, "components": {"schemas": schemas}}
+
+
+def discmap_spec(d):
+    """d["dbase"]: name of a discriminated base; d["children"]: [[name, spelling, own_op], ...] with spelling
+    "bare" (`tag: Cat`) or "ptr" (`tag: '#/components/schemas/Cat'`); a child with own_op is ALSO referenced by an
+    operation of its own (response body for even positions, request body for odd ones).  op0 returns the base."""
+    base = d["dbase"]
+    mapping = {}
+    schemas = {base: {"type": "object", "required": ["kind", "name"], "properties": {"kind": {"type": "string"}, "name": {"type": "string"}},
+                      "discriminator": {"propertyName": "kind", "mapping": mapping}}}
+    paths = {"/a0/base": {"get": {"operationId": "op0", "responses": {"200": {"description": "ok", "content": {"application/json": {"schema": {"$ref": REF + base}}}}}}}}
+    k = 0
+    for i, (name, spelling, own) in enumerate(d["children"]):
+        mapping["t_" + fld(name)] = name if spelling == "bare" else REF + name
+        schemas[name] = {"allOf": [{"$ref": REF + base}, {"type": "object", "properties": {"p_" + fld(name): {"type": "boolean"}, "mood": {"type": "string", "enum": ["calm", fld(name)]}}}]}
+        if own:
+            k += 1
+            if i % 2 == 0:
+                op = {"operationId": "op%d" % k, "responses": {"200": {"description": "ok", "content": {"application/json": {"schema": {"$ref": REF + name}}}}}}
+                paths["/a%d/%s" % (k, fld(name))] = {"get": op}
+            else:
+                op = {"operationId": "op%d" % k, "requestBody": {"required": True, "content": {"application/json": {"schema": {"$ref": REF + name}}}}, "responses": {"204": {"description": "done"}}}
+                paths["/a%d/%s" % (k, fld(name))] = {"post": op}
+    if d.get("holder"):
+        # a second way to the base: a member of another object
+        schemas["Holder"] = {"type": "object", "properties": {"pet": {"$ref": REF + base}, "pets": {"type": "array", "items": {"$ref": REF + base}}}}
+        k += 1
+        paths["/a%d/holder" % k] = {"get": {"operationId": "op%d" % k, "responses": {"200": {"description": "ok", "content": {"application/json": {"schema": {"$ref": REF + "Holder"}}}}}}}
+    return {"openapi": "3.1.0", "info": {"title": "g", "version": "1"}, "paths": paths, "components": {"schemas": schemas}}
+
+
+def op_ids(spec):
+    return [op["operationId"] for item in spec["paths"].values() for m, op in item.items() if m != "parameters"]
